@@ -34,14 +34,16 @@ def tsName : TS → String
 
 def b01 (b : Bool) : String := if b then "1" else "0"
 def optS : Option Nat → String | none => "-" | some n => toString n
+/-- a settings value as Python shows it: code 0 stands for `None`, which is also what "no value" looks like -/
+def optV : Option Nat → String | none => "-" | some 0 => "-" | some n => toString n
 
 def absOf (s : State) : String :=
-  s!"{tsName s.st} {b01 s.exc} {b01 s.stopReq} {optS s.slot} {optS s.settings} {b01 s.joined} {optS s.status}"
+  s!"{tsName s.st} {b01 s.exc} {b01 s.stopReq} {optS s.slot} {optV s.settings} {b01 s.joined} {optS s.status}"
 
 def resName : Res → String
   | .none => "none" | .unit => "unit" | .pending => "pending"
   | .bool b => if b then "true" else "false"
-  | .val v => "val:" ++ optS v
+  | .val v => "val:" ++ optV v
   | .usageError => "exc:QMI_UsageException" | .taskRunError => "exc:QMI_TaskRunException"
   | .taskInitError => "exc:QMI_TaskInitException" | .assertionError => "exc:AssertionError"
   | .indexError => "exc:IndexError"
